@@ -54,7 +54,7 @@ seed(50, "D4 re-introduced: skinny128_parallel_ecb_init leaves ctx on failure", 
      ("src/skinny128-parallel.c", "        ecb->vtable = 0;\n        ecb->ctx = 0;\n        return 0;", "        return 0;"))
 seed(53, "double free: free(ctr->ctx) twice in mantis_ctr_def_cleanup", ["C15.R3"],
      ("src/mantis-ctr.c", "        free(ctr->ctx);\n        ctr->ctx = 0;", "        free(ctr->ctx);\n        free(ctr->ctx);\n        ctr->ctx = 0;"))
-seed(54, "second allocation leaked in skinny64_ctr_def_init", ["C15.R1", "C16.R2"],
+seed(54, "second allocation leaked in skinny64_ctr_def_init", ["C15.R1"],
      ("src/skinny64-ctr.c", "    ctx->offset = SKINNY64_BLOCK_SIZE;\n    ctr->ctx = ctx;\n    return 1;", "    ctx->offset = SKINNY64_BLOCK_SIZE;\n    ctr->ctx = calloc(1, sizeof(Skinny64CTRCtx_t)) ? ctx : ctx;\n    return 1;"))
 seed(55, "parallel decrypt accepts partial blocks (size % B check dropped)", ["C14.R2", "C07.R5"],
      ("src/skinny128-parallel.c", "    /* Validate the parameters */\n    if (!ecb || !ecb->ctx || (size % SKINNY128_BLOCK_SIZE) != 0)\n        return 0;\n    ks = ecb->ctx;\n\n    /* Process major blocks with the vectorized back end */\n    vtable = ecb->vtable;\n    if (vtable) {\n        size_t psize = ecb->parallel_size;\n        while (size >= psize) {\n            (*(vtable->decrypt))",
